@@ -1,6 +1,7 @@
 package congestion
 
 import (
+	"encoding/json"
 	"fmt"
 	"testing"
 	"time"
@@ -9,8 +10,22 @@ import (
 	"github.com/refraction-networking/uquic/internal/verifmc/explore"
 )
 
+// c20Slice gives every part its own share of the process deadline, so that one part that
+// is slower than measured cannot starve the parts after it (safety net only: the bounds
+// are sized so that no part is cut).
+func c20Slice(e explore.Env) explore.Env {
+	s := 40 * time.Second
+	if e.Thorough() {
+		s = 170 * time.Second
+	}
+	if d := time.Now().Add(s); e.Deadline.IsZero() || d.Before(e.Deadline) {
+		e.Deadline = d
+	}
+	return e
+}
+
 func c20Part(name string, mk func(thorough bool) *c20Cfg) explore.Part {
-	return explore.BFSPart(name, func(e explore.Env) explore.BFSSpec {
+	spec := func(e explore.Env) explore.BFSSpec {
 		cfg := mk(e.Thorough())
 		algo := "Cubic"
 		if cfg.reno {
@@ -24,10 +39,15 @@ func c20Part(name string, mk func(thorough bool) *c20Cfg) explore.Part {
 			New:              func() explore.Instance { return newC20Inst(cfg) },
 			MaxDepth:         cfg.depth,
 			PanicIsViolation: true,
-			Rule: fmt.Sprintf("BFS depth %d over the real cubicSender (%s, initial window %s) + real pacer + real RTTStats with a harness clock; alphabet: send sizes %v (0 full,1 half,2 one byte,3 full-1) nonretransmittable=%v fill=%v burst=%v paced-run=%d, ack %v / lose %v (0 oldest,1 newest,2 all), RTT samples %v (<=%d per history), MTU +80 x<=%d, RTO=%v x<=%d, clock steps %v huge(2^62ns)=%v to-pacer-deadline=%v; pacer clause evaluated=%v; state = canon(sender) + ledger + model",
+			Rule: fmt.Sprintf("BFS depth %d over the real cubicSender (%s, initial window %s) + real pacer + real RTTStats with a harness clock; alphabet: send sizes %v (0 full,1 half,2 one byte) nonretransmittable=%v fill=%v burst=%v paced-run=%d, ack %v / lose %v (0 oldest,1 newest,2 all; ack only for packets younger than 60 s), RTT samples %v (<=%d per history), MTU +80 x<=%d, RTO=%v x<=%d, clock steps %v huge(2^62ns)=%v to-pacer-deadline=%v; pacer clause evaluated=%v; state = canon(sender) + ledger + model",
 				cfg.depth, algo, init, cfg.sizes, cfg.nonRetr, cfg.fill, cfg.burst, cfg.paced, cfg.acks, cfg.losses, cfg.rtts, cfg.maxRTTOps, cfg.maxMTU, cfg.rto, cfg.maxRTO, cfg.steps, cfg.huge, cfg.advPace, cfg.pacer),
 		}
-	})
+	}
+	return explore.Part{
+		Name:   name,
+		Run:    func(e explore.Env) *explore.Report { return explore.BFS(c20Slice(e), spec(e)) },
+		Replay: func(e explore.Env, raw json.RawMessage) *explore.Violation { return explore.ReplayBFS(spec(e), raw) },
+	}
 }
 
 // window dynamics: slow start, congestion avoidance, recovery; no pacer clause (deep).
@@ -43,9 +63,6 @@ func c20WinCfg(reno bool, initPkts int, rto bool, dq, dt int) func(bool) *c20Cfg
 		}
 		if th {
 			c.depth = dt
-			c.sizes = []int{0, 1, 2}
-			c.acks = []int{0, 1, 2}
-			c.maxMTU = 2
 		}
 		return c
 	}
@@ -62,8 +79,10 @@ func c20PacerCfg(reno bool, initPkts int, dq, dt int) func(bool) *c20Cfg {
 		}
 		if th {
 			c.depth = dt
-			c.sizes = []int{0, 1, 2}
-			c.rtts = []time.Duration{time.Millisecond, 100 * time.Millisecond, 10 * time.Second}
+			if reno {
+				c.sizes = []int{0, 1, 2}
+				c.rtts = []time.Duration{time.Millisecond, 100 * time.Millisecond, 10 * time.Second}
+			}
 		}
 		return c
 	}
@@ -78,7 +97,7 @@ func c20CapCfg(reno bool, dq, dt int) func(bool) *c20Cfg {
 		}
 		if th {
 			c.depth = dt
-			c.belowMax = 2
+			c.acks = []int{0, 1, 2}
 		}
 		return c
 	}
@@ -91,9 +110,9 @@ func TestVerifC20Cc(t *testing.T) {
 		c20Part("reno-window3", c20WinCfg(true, 3, false, 7, 9)),
 		c20Part("reno-window8", c20WinCfg(true, 8, true, 7, 9)),
 		c20Part("cubic-window8", c20WinCfg(false, 8, true, 7, 8)),
-		c20Part("reno-pacer", c20PacerCfg(true, 4, 5, 7)),
+		c20Part("reno-pacer", c20PacerCfg(true, 4, 5, 6)),
 		c20Part("cubic-pacer", c20PacerCfg(false, 4, 5, 6)),
-		c20Part("reno-cap", c20CapCfg(true, 6, 7)),
-		c20Part("cubic-cap", c20CapCfg(false, 6, 7)),
+		c20Part("reno-cap", c20CapCfg(true, 6, 8)),
+		c20Part("cubic-cap", c20CapCfg(false, 6, 8)),
 	}, func(msg string) { t.Fatal(msg) })
 }
